@@ -404,6 +404,7 @@ func (x *Exec) goStmt(st *State, fr *Frame, g *ssa.Go) {
 		x.curSite = g
 		x.atCallAsserts(st, fr, fullName(callee), fnParamNames(callee), args, x.pos(g.Pos()))
 	}
+	x.spawnPre(st, fr, g)
 	if mc, ok := g.Call.Value.(*ssa.MakeClosure); ok {
 		// variables captured by reference become shared: havoc on later reads is
 		// approximated by havocking them now and at every loop head
@@ -878,4 +879,72 @@ func sortedFieldNames[T any](m map[string]T) []string {
 	}
 	sort.Strings(ks)
 	return ks
+}
+
+// spawnPre: the preconditions of a function started with `go` hold where it is started (arguments and captured
+// variables as they are at the spawn).  Clauses that name a logical variable of the spawned function (`ghost`)
+// say how that variable is chosen and are not checkable here.
+func (x *Exec) spawnPre(st *State, fr *Frame, g *ssa.Go) {
+	if x.dry || g.Call.IsInvoke() {
+		return
+	}
+	var fn *ssa.Function
+	var binds []Val
+	switch v := g.Call.Value.(type) {
+	case *ssa.Function:
+		fn = v
+	case *ssa.MakeClosure:
+		fn, _ = v.Fn.(*ssa.Function)
+		binds = x.reg(st, fr, v).Bindings
+	}
+	if fn == nil {
+		return
+	}
+	fc := x.E.contractFor(fn)
+	if fc == nil || len(fc.Requires) == 0 {
+		return
+	}
+	env := &Env{x: x, st: st, old: st, vars: map[string]Val{}, pkgPath: x.E.pkgOfContract(fc), fc: fc}
+	if len(fn.FreeVars) > 0 {
+		if len(binds) != len(fn.FreeVars) {
+			return
+		}
+		env.fr = &Frame{fn: fn, fc: fc, freeVars: binds}
+	}
+	for i, p := range fn.Params {
+		if i < len(g.Call.Args) {
+			env.vars[p.Name()] = x.reg(st, fr, g.Call.Args[i])
+		}
+	}
+	where := x.pos(g.Pos())
+	for _, r := range fc.Requires {
+		skip := false
+		for _, gv := range fc.Ghost {
+			if mentionsIdent(r.E, gv.Name) {
+				skip = true
+			}
+		}
+		if skip {
+			continue
+		}
+		x.oblige(st, "pre", "go:"+shortName(fc.Name)+":"+labelOr(r, "requires"), x.evalBool(env, r.E), r.Src, where)
+	}
+}
+
+func mentionsIdent(e *SExpr, name string) bool {
+	if e == nil {
+		return false
+	}
+	if e.K == "ident" && e.Name == name {
+		return true
+	}
+	if mentionsIdent(e.X, name) || mentionsIdent(e.Y, name) || mentionsIdent(e.Z, name) {
+		return true
+	}
+	for _, a := range e.Args {
+		if mentionsIdent(a, name) {
+			return true
+		}
+	}
+	return false
 }
